@@ -30,7 +30,11 @@ def const_bytes(v):
     return [z3.BitVecVal((v >> (8 * (31 - i))) & 0xFF, 8) for i in range(32)]
 
 
-def ob_za(idlen):
+def ob_za(idlen, text=None):
+    """text: a concrete (non-ASCII) identifier instead of `idlen` symbolic bytes - a symbolic byte string cannot stand for
+    multi-byte UTF-8 characters, and code that walks the ID by characters must still hash its bytes"""
+    if text is not None:
+        idlen = len(text.encode("utf-8"))
     def body(stats):
         c = load_crate(CRATE)
         def run(ctx):
@@ -39,7 +43,7 @@ def ob_za(idlen):
             s = W.summaries(h)
             s["fp_from_mont"] = from_mont_concrete_aware(W)
             ex.summaries = s
-            idb = sym_bytes(dom, "id", idlen)
+            idb = sym_bytes(dom, "id", idlen) if text is None else [Sc(b_, "u8") for b_ in text.encode("utf-8")]
             cell = Cell(Agg(list(idb), name="array"), "id")
             pk = sym_point("PK")
             r = ex.run_fn(c.find("compute_za"), [Ref(cell, (), (0, idlen)), Ref(Cell(pk, "pk"))])
@@ -75,7 +79,8 @@ def ob_za(idlen):
         if idlen * 8 <= 65535 and nok == 0:
             raise Inconclusive("no successful path")
         return {"paths": len(paths)}
-    return run_obligation("za_framing_idlen_%04d" % idlen, ["gm_sm2::util::compute_za"], "identifier of %d bytes (contents symbolic), all public keys" % idlen, body,
+    return run_obligation(("za_framing_idlen_%04d" % idlen) if text is None else ("za_framing_utf8_%s" % text.encode("utf-8").hex()[:16]), ["gm_sm2::util::compute_za"],
+                          ("identifier of %d bytes (contents symbolic), all public keys" % idlen) if text is None else ("concrete non-ASCII identifier %r (%d bytes), all public keys" % (text, idlen)), body,
                           ["sm3_hash, to_affine_point, is_valid, fp_from_mont (symbolic args) -> uninterpreted; fp_from_mont on constants evaluated"])
 
 
@@ -287,6 +292,7 @@ def ob_verify_complete():
 def run(tier, seed, t0):
     ids = [0, 1, 16, 17, 32] if tier == "quick" else list(range(0, 65))
     jobs = [(lambda n=n: ob_za(n)) for n in ids] + [lambda: ob_za(8191), lambda: ob_za(8192)]
+    jobs += [(lambda t=t: ob_za(0, text=t)) for t in ("\u00e9", "\u7528\u6237\u4e2d", "A\u01e9z\U0001f511")]      # 2-, 3- and 4-byte UTF-8 characters
     jobs += [ob_sign_raw, ob_algebra, ob_verify_complete] + [(lambda n=n: ob_sign_framing(n)) for n in ((0, 1, 16) if tier == "quick" else range(0, 40))]
     # the mod-n arithmetic the signing / verification equations are evaluated with (the L2 obligations of C11, run here as well:
     # a fault in fn_add / fn_sub / fn_reduce / mont_mul mod n / the inversion exponent breaks conformance of r and s)
